@@ -129,7 +129,7 @@ class FsInterposer:
             except Exception:
                 pass
             name = getattr(f, "name", f)
-            ip._after("write", dict(path=ip.abstract(name), content=ip.content_of(obj)))
+            ip._after("write", dict(path=ip.abstract(name), content=ip.content_of(obj), lr=ip.lr_of(obj)))
 
         def open_(path, mode="r", *a, **kw):
             if "a" in mode or "w" in mode or "+" in mode:
@@ -162,6 +162,16 @@ class FsInterposer:
             except AttributeError:
                 pass
         return False
+
+    @staticmethod
+    def lr_of(obj):
+        """the learning rate an optimizer state dict carries (None for a model state dict)"""
+        try:
+            if "param_groups" in obj:
+                return float(obj["param_groups"][0]["lr"])
+        except Exception:
+            pass
+        return None
 
     @staticmethod
     def content_of(obj):
